@@ -176,4 +176,7 @@ def run(tier, seed):
     })
     res.assumptions = ["a client never watches a key it already watches; fewer than 50 undrained lines",
                        "mutations are attributed to notifications by their (distinguishable) values"]
+    # free-running rounds: real threads, no scheduler, no hook involved (lock regions without a yield point)
+    import stress
+    res.coverage.update(stress.run_part(res, wd, devs, ['churn', 'set'], tier, seed))
     return res, known
